@@ -31,7 +31,8 @@ demo_fails = bool(m2) and m2.group(1) == "FAILED"
 # the check, against the patched worktree
 env = dict(os.environ, VERIF_REPO=wt, VERIF_TAG=f"-seed-{os.path.basename(wt.rstrip('/'))}{x}")
 t0 = time.time()
-rc, o = sh("bin/check %s --no-evidence %s" % (prop, " ".join(extra)), cwd="/verif", env=env, timeout=4 * 3600)
+import shlex
+rc, o = sh("bin/check %s --no-evidence %s" % (prop, " ".join(shlex.quote(e) for e in extra)), cwd="/verif", env=env, timeout=6 * 3600)
 meta["check"] = {"cmd": f"VERIF_REPO={wt} bin/check {prop} --no-evidence {' '.join(extra)}", "exit": rc, "wall_s": round(time.time() - t0),
                  "violation_lines": [l for l in o.split("\n") if l.startswith("VIOLATION")],
                  "undecided": [l for l in o.split("\n") if "UNDECIDED" in l]}
